@@ -8,13 +8,14 @@ WALL_CAP = {'quick': 300, 'thorough': 3000}
 RUNS = {'quick': 2500, 'thorough': 50000}
 RULE = ('one run = source model S (sample or API-built, every geometry kind, skinned or not, model-space shaders) and destination D in {S itself, fresh Create(version), '
         'another loaded/built model of the same version}; steps: CloneShape (repeated), restart of D (raw/default save, forget, load), destruction of S followed by use of D, '
-        'query battery on D. Oracle per clone: geometry, weights, bone list and texture paths equal the source\'s (normals/tangents exempt for model-space shaders in SK/SSE); '
+        'query battery on D. Sweep: for every registered block type x {OB, FO3, SK, SSE, FO4, FO76} an API-built shape gets a populated block of that type hung below it '
+        '(type-fitting slot of the shape / its shader / alpha property, or through synthesised carrier blocks: controller -> interpolator -> data ...), is stored, loaded and cloned. Oracle per clone: geometry, weights, bone list and texture paths equal the source\'s (normals/tangents exempt for model-space shaders in SK/SSE); '
         'every bone is a node of D; a renumbering-invariant content signature of the subgraph reachable from the clone (every block serialised on its own, child references '
         'replaced by the child\'s signature, pointers by the target\'s type and name, string indices by strings) equals the source\'s; S\'s observation is unchanged; the clone '
         'is found with the same signature after D\'s restart. non-trivial = a clone was made; distinct = distinct signatures of (initial state, destination kind, step trace).')
 ASSUMPTIONS = ['graph comparison is up to block renumbering (CloneChildren iterates a pointer-ordered set)', 'source and destination have the same file version',
                'an observation of S that is not stable under a second save is unusable and attributed to C02']
-EXPECTED_PROBES = ['cloned_skinned_shape', 'cloned_model_space_shape', 'source_observed', 'clone_survived_restart', 'destination_used_after_source_destroyed']
+EXPECTED_PROBES = ['attached_below_shape', 'attached_below_shape_via_carrier', 'cloned_skinned_shape', 'cloned_model_space_shape', 'source_observed', 'clone_survived_restart', 'destination_used_after_source_destroyed']
 
 BY_VERSION = {
     'SSE': ['in/Static_SE', 'in/Skinned_SE', 'in/Skinned_Dynamic_SE', 'in/Furniture_Col_SE', 'in/MultiBound_SE', 'in/OrderedNode_SE', 'in/Optimize_SE_to_LE',
@@ -74,8 +75,35 @@ def gen_plan(seed, i, tier):
     return plan
 
 
+def sweep_plan(seed, ver, t, k):
+    """every registered block type, populated, hangs below the shape that is cloned (type-fitting, via carrier blocks)"""
+    rng = Rng(seed, PROP, 'sweep', ver, t, k)
+    sh = hist.shape_spec(rng, ver, 'quick', name='s0')
+    if sh['nv'] > 60:
+        sh['nv'], sh['nt'] = rng.range(4, 40), rng.range(2, 40)
+    init = {'settle': True, 'builder': {'version': ver, 'salt': rng.below(1 << 30), 'nodes': rng.below(3), 'shapes': [sh]},
+            'attach': [{'type': t, 'seed': rng.below(1 << 20), 'shape': 0}]}
+    if rng.chance(0.3):
+        init['attach'].append({'type_index': rng.below(100000), 'seed': rng.below(1 << 20), 'shape': 0, 'required': False})
+    dest = rng.weighted([('same', 2), ('fresh', 5)])
+    steps = [{'op': 'Clone', 'shape': 0}]
+    if rng.chance(0.5):
+        steps.append({'op': 'RestartDst', 'raw': rng.chance(0.7)})
+    if dest != 'same' and rng.chance(0.5):
+        steps.append({'op': 'DestroySrc'})
+    steps.append({'op': 'UseDst'})
+    return {'property': PROP, 'profile': 'clone', 'init': init, 'dest': dest, 'timeout_s': 60, 'destroy_dest_first': rng.chance(0.5), 'steps': steps}
+
+
 def jobs(tier, seed, pool):
-    return [{'plan': gen_plan(seed, i, tier), 'meta': {}} for i in range(RUNS[tier])]
+    out = [{'plan': gen_plan(seed, i, tier), 'meta': {'kind': 'history'}} for i in range(RUNS[tier])]
+    for ver in ['OB', 'FO3', 'SK', 'SSE', 'FO4', 'FO76']:
+        for t in synth.block_types():
+            if t in synth.BUILDER_ONLY:
+                continue
+            for k in range(1 if tier == 'quick' else 6):
+                out.append({'plan': sweep_plan(seed, ver, t, k), 'meta': {'kind': 'sweep', 'cell': (ver, t)}})
+    return out
 
 
 account = hist.account
